@@ -20,12 +20,12 @@ LEVEL_TEXT = ('every state reachable by at most d commands (quick d=5, thorough 
               'canonical hash of the whole disk image, and in every state the output of the real trash-list must equal the bag (multiset of date+path lines) and the pairs on disk must equal the bag')
 LEVEL_NOTE = ('exhaustive to the stated depth only; canonicalisation drops directory/.trashinfo mtimes and inode numbers, which no trash-cli code path reads (grep st_mtime|st_ino is empty); '
               'trusted: R3/R4/R5 reference models')
-RULE = ('alphabet: one run putting a file and a symlink to it; put of 6 entries (re-created with path-determined content when absent; four of them share the base name "a" - one of these is a dangling symlink -, one is a directory, two live on /mnt/v1, one of them with a percent escape and a trailing blank in its name), restore with '
+RULE = ('alphabet: one run putting a file and a symlink to it; put of 6 entries (re-created with path-determined content when absent; four of them share the base name "a" - one of these is a dangling symlink, one a symlink to a file in another directory -, one is a directory, two live on /mnt/v1, one of them with a percent escape and a trailing blank in its name), restore with '
         '(scope, reply) in {(/,0),(/home/u/w,0),(/,0-1),(/mnt/v1,0)}, rm {a,*,/home/u/w/*}, empty -i answered y, empty 1, empty 0 (entries of the current day are exactly at the limit and stay), tick (+1 day, at most 2); BFS to the depth bound; distinct = transition outcome labels')
 DEPTH = {'quick': 5, 'thorough': 6}
 STATE_CAP = {'quick': 60000, 'thorough': 400000}
 BASE = '2024-03-01T12:00:00'
-PUTS = {'put:w/a': ('/home/u/w/a', 'file'), 'put:w/d': ('/home/u/w/d', 'tree'), 'put:w/sub/a': ('/home/u/w/sub/a', 'file'),
+PUTS = {'put:w/a': ('/home/u/w/a', 'file'), 'put:w/d': ('/home/u/w/d', 'tree'), 'put:w/sub/a': ('/home/u/w/sub/a', 'lfile'),
         'put:v1/p/a': ('/mnt/v1/p/a', 'file'), 'put:v1/p/b': ('/mnt/v1/p/b%41 ', 'file'), 'put:w/ln/a': ('/home/u/w/ln/a', 'ldang')}
 RESTORES = {'restore:/,0': ('/', '0'), 'restore:w,0': ('/home/u/w', '0'), 'restore:/,0-1': ('/', '0-1'), 'restore:v1,0': ('/mnt/v1', '0')}
 RMS = {'rm:a': 'a', 'rm:*': '*', 'rm:/home/u/w/*': '/home/u/w/*'}
